@@ -176,3 +176,78 @@ Definition ex_state : state := krun true ex_labels (kinit 10 ex_store).
 
 Lemma ex_reach : reach true 10 ex_store ex_state.
 Proof. split; [apply ex_store_wf|exists ex_labels; reflexivity]. Qed.
+
+(* ---------- C01_failure_justified: the faithful model refutes the full statement (finding C01-F1) ---------- *)
+
+Definition quiet_label (l : label) : Prop :=
+  match l with
+  | LEngine _ EnvConflictAbort => False
+  | LInvoke _ (RqCreate _ v) | LInvoke _ (RqUpdate _ v _) => v <> tombstone
+  | _ => True
+  end.
+
+Definition no_marker_store (store : key -> kstate) : Prop :=
+  forall k r v, In (r, v) (k_vers (store k)) -> k_idx (store k) = Some (r, false) -> v <> tombstone.
+
+(* the justification of a failed condition: the ghost flag, or — for an unguarded delete, which expects
+   the key to stay as it found it — another commit on its key since its LInvoke *)
+Definition justified_at (s : state) (t : tid) : Prop :=
+  seen s t = true \/
+  (exists k l2 l1 l0 t' q' a rev f v pred,
+     log s = l2 ++ EApplied t' q' k a rev f v pred :: l1 ++ EInvoke t (RqDelete k 0) :: l0 /\
+     Forall (fun e => match e with EInvoke t0 _ | EReturn t0 _ => t0 <> t | _ => True end) (l2 ++ l1)).
+
+Definition failure_justified_statement (allowed : label -> Prop) : Prop :=
+  forall cidx0 d0 store ls, wf_store d0 store -> no_marker_store store ->
+    Forall (fun l => quiet_label l /\ allowed l) ls ->
+    let s := krun cidx0 ls (kinit d0 store) in
+    forall t r, thr s t = PReturn r -> resp_cond_failed r = true -> justified_at s t.
+
+Definition f1_store : key -> kstate :=
+  fun k => if k =? 0 then {| k_idx := Some (5, true); k_vers := [(5, tombstone); (4, [1])] |} else k_empty.
+
+(* a creator is dealt 11; the repair of the (uncertain) delete at 5 is dealt 12 and re-stamps the
+   tombstone; the creator's put-if-absent meets tombstone 12 >= 11 and is refused *)
+Definition f1_labels : list label :=
+  [LInvoke 0 (RqCreate 0 [9]); LDeal 0;
+   LInvoke 1 (RqRewrite 0 5); LEngine 1 EnvOk; LDeal 1; LEngine 1 EnvOk;
+   LEngine 0 EnvOk; LNotify 0].
+
+Lemma f1_store_wf : wf_store 10 f1_store.
+Proof.
+  intros k. unfold f1_store. destruct (k =? 0); simpl; split.
+  - intros r v [[= <- <-]|[[= <- <-]|[]]]; lia.
+  - intros r f [= <- <-]. split; [exists tombstone; split; auto|].
+    intros r' v' [[= <- <-]|[[= <- <-]|[]]]; lia.
+  - contradiction.
+  - discriminate.
+Qed.
+
+Lemma failure_justified_refuted : ~ failure_justified_statement (fun _ => True).
+Proof.
+  intros H.
+  assert (Hq : Forall (fun l => quiet_label l /\ True) f1_labels).
+  { unfold f1_labels. repeat constructor; simpl; discriminate. }
+  assert (Hm : no_marker_store f1_store).
+  { intros k r v. unfold f1_store. destruct (k =? 0); simpl; [|contradiction]. intros _ [=]. }
+  (* the three facts about the concrete run, each by evaluation in the VM *)
+  assert (F1 : thr (krun true f1_labels (kinit 10 f1_store)) 0 = PReturn (RespCreate 11 false))
+    by (vm_compute; reflexivity).
+  assert (F2 : seen (krun true f1_labels (kinit 10 f1_store)) 0 = false) by (vm_compute; reflexivity).
+  assert (F3 : forall k, ~ In (EInvoke 0 (RqDelete k 0)) (log (krun true f1_labels (kinit 10 f1_store)))).
+  { assert (Hl : exists l, log (krun true f1_labels (kinit 10 f1_store)) = l /\
+                           forall k, ~ In (EInvoke 0 (RqDelete k 0)) l).
+    { eexists. split; [vm_compute; reflexivity|].
+      intros k Hin. simpl in Hin. repeat (destruct Hin as [Hin|Hin]; [discriminate|]). exact Hin. }
+    destruct Hl as [l [-> Hl]]. exact Hl. }
+  specialize (H true 10 f1_store f1_labels f1_store_wf Hm Hq).
+  revert H F1 F2 F3. generalize (krun true f1_labels (kinit 10 f1_store)). intros s H F1 F2 F3.
+  cbv zeta in H. specialize (H 0 (RespCreate 11 false) F1 eq_refl).
+  destruct H as [H|(k & l2 & l1 & l0 & t' & q' & a & rev & f & v & pred & E & _)].
+  - rewrite F2 in H. discriminate.
+  - apply (F3 k). rewrite E. apply in_or_app. right. right. apply in_or_app. right. left. reflexivity.
+Qed.
+
+(* without asynchronous rewrites in the label list: stated, not proved *)
+Definition failure_justified_except_rewrite : Prop :=
+  failure_justified_statement (fun l => match l with LInvoke _ (RqRewrite _ _) => False | _ => True end).
